@@ -216,10 +216,28 @@ func (r *ref) step(f []string, op, o string) fw.Verdict {
 			}
 		}
 		r.deleteRange(meas, pred, tmin, tmax)
-	case "series", "meas", "tagkeys", "tagvals":
+	case "series", "meas", "tagkeys", "tagvals", "seriesby", "measin":
 		if v := r.listing(f, op, o); !v.OK {
 			return v
 		}
+	case "card":
+		// every series that has points is counted; nothing beyond the index entries is
+		n := 0
+		fmt.Sscanf(o, "card %d", &n)
+		must := 0
+		for series := range r.index {
+			if r.hasData(series) {
+				must++
+			}
+		}
+		if n < must || n > len(r.index) {
+			return fw.Verdict{OK: false, Why: fmt.Sprintf("%s answered %s: %d series hold points, %d are registered", op, o, must, len(r.index)), Signature: "series cardinality wrong"}
+		}
+	case "drops":
+		sel := func(series string) bool {
+			return strings.SplitN(series, "|", 2)[0] == f[1] && (f[2] == "-" || tagPred(series, f[2], f[3], f[4]))
+		}
+		r.deleteSel(sel, int64(-1<<63), int64(1<<63-1))
 	case "read":
 		k := f[1] + "|" + f[2] + "/" + f[3]
 		tmin, tmax := i64(f[4]), i64(f[5])
@@ -350,10 +368,48 @@ func (r *ref) noteTime(series string, t int64) {
 	r.span[series] = sp
 }
 
+func tagPred(series, key, op, vals string) bool {
+	v := ""
+	sm := strings.SplitN(series, "|", 2)
+	if sm[1] != "-" {
+		for _, kv := range strings.Split(sm[1], ",") {
+			x := strings.SplitN(kv, "=", 2)
+			if x[0] == key {
+				v = x[1]
+			}
+		}
+	}
+	want := vals
+	if want == "-" {
+		want = ""
+	}
+	in := false
+	for _, w := range strings.Split(want, ",") {
+		if w == v {
+			in = true
+		}
+	}
+	switch op {
+	case "eq":
+		return v == want
+	case "ne":
+		return v != want
+	case "in":
+		return in
+	case "nin":
+		return !in
+	}
+	return false
+}
+
 func (r *ref) deleteRange(meas, pred string, tmin, tmax int64) {
+	r.deleteSel(func(series string) bool { return selects(series, meas, pred) }, tmin, tmax)
+}
+
+func (r *ref) deleteSel(sel func(string) bool, tmin, tmax int64) {
 	for k, m := range r.data {
 		series := strings.SplitN(k, "/", 2)[0]
-		if !selects(series, meas, pred) {
+		if !sel(series) {
 			continue
 		}
 		for t := range m {
@@ -374,7 +430,7 @@ func (r *ref) deleteRange(meas, pred string, tmin, tmax int64) {
 		hadM[ms] = true
 	}
 	for series := range r.index {
-		if !selects(series, meas, pred) {
+		if !sel(series) {
 			continue
 		}
 		if !r.hasData(series) {
@@ -428,6 +484,16 @@ func (r *ref) listing(f []string, op, o string) fw.Verdict {
 		switch f[0] {
 		case "series":
 			m[series] = true
+		case "seriesby":
+			if sm[0] == f[1] && tagPred(series, f[2], f[3], f[4]) {
+				m[series] = true
+			}
+		case "measin":
+			for _, w := range strings.Split(f[1], ",") {
+				if w == sm[0] {
+					m[sm[0]] = true
+				}
+			}
 		case "meas":
 			m[sm[0]] = true
 		case "tagkeys", "tagvals":
@@ -467,7 +533,7 @@ func (r *ref) listing(f []string, op, o string) fw.Verdict {
 				// the last points went in a delete that did not span everything the series had
 				// held (earlier deletes took the rest): the TSM index still names the key
 				sig = "listing keeps a series emptied by several partial deletes"
-			case f[0] == "tagvals" && r.indexType == "tsi1":
+			case f[0] == "tagvals" && strings.HasPrefix(r.indexType, "tsi1"):
 				sig = "tagvals listing keeps a value whose series were all deleted (tsi1 index)"
 			}
 			return fw.Verdict{OK: false, Why: fmt.Sprintf("%s answered %.300s: %q is listed although all its points were removed", op, o, x), Signature: sig}
